@@ -300,6 +300,33 @@ MUTANTS = [
                 Some(_result_register) => ResultRegister::Any,
                 _ => ResultRegister::None,
             };""", expect="V-codegen::Compiler::compile_try_expression::finally_block_last_reached_from_the_try_block_gives_the_value"),
+    dict(name="codegen_arith_rhs_before_lhs", kind="break", prop="C01", units=["V-codegen"], file="crates/bytecode/src/compiler.rs",
+         old="""            let lhs = self.compile_node(lhs, ctx.with_any_register())?;
+            let lhs_register = lhs.unwrap(self)?;
+            let rhs = self.compile_node(rhs, ctx.with_any_register())?;
+            let rhs_register = rhs.unwrap(self)?;
+
+            self.push_op(op, &[result_register, lhs_register, rhs_register]);""", new="""            let rhs = self.compile_node(rhs, ctx.with_any_register())?;
+            let rhs_register = rhs.unwrap(self)?;
+            let lhs = self.compile_node(lhs, ctx.with_any_register())?;
+            let lhs_register = lhs.unwrap(self)?;
+
+            self.push_op(op, &[result_register, lhs_register, rhs_register]);""", expect="V-codegen::Compiler::compile_arithmetic_op::lhs_then_rhs_then_the_operator"),
+    dict(name="codegen_arith_operands_swapped", kind="break", prop="C01", units=["V-codegen"], file="crates/bytecode/src/compiler.rs",
+         old="self.push_op(op, &[result_register, lhs_register, rhs_register]);\n\n            if lhs.is_temporary {", new="self.push_op(op, &[result_register, rhs_register, lhs_register]);\n\n            if lhs.is_temporary {", expect="V-codegen::Compiler::compile_arithmetic_op::lhs_then_rhs_then_the_operator"),
+    dict(name="codegen_arith_no_side_effects_without_result", kind="break", prop="C01", units=["V-codegen"], file="crates/bytecode/src/compiler.rs",
+         old="""            self.compile_node(lhs, ctx.compile_for_side_effects())?;
+            self.compile_node(rhs, ctx.compile_for_side_effects())?;""", new="""            self.compile_node(lhs, ctx.compile_for_side_effects())?;""", expect="V-codegen::Compiler::compile_arithmetic_op::lhs_then_rhs_then_the_operator"),
+    dict(name="codegen_arith_remainder_is_divide", kind="break", prop="C01", units=["V-codegen"], file="crates/bytecode/src/compiler.rs",
+         old="            Remainder => Op::Remainder,\n            Power => Op::Power,", new="            Remainder => Op::Divide,\n            Power => Op::Power,", expect="V-codegen::Compiler::compile_arithmetic_op::lhs_then_rhs_then_the_operator"),
+    dict(name="codegen_unary_not_is_negate", kind="break", prop="C01", units=["V-codegen"], file="crates/bytecode/src/compiler.rs",
+         old="                AstUnaryOp::Not => Op::Not,", new="                AstUnaryOp::Not => Op::Negate,", expect="V-codegen::Compiler::compile_unary_op::operand_then_the_operator"),
+    dict(name="codegen_unary_temp_not_released", kind="break", prop="C01", units=["V-codegen"], file="crates/bytecode/src/compiler.rs",
+         old="""        if value_result.is_temporary {
+            self.pop_register()?;
+        }""", new="", expect="V-codegen::Compiler::compile_unary_op::temporaries_released"),
+    dict(name="codegen_binary_pipe_sent_to_logic_op", kind="break", prop="C06", units=["V-codegen"], file="crates/bytecode/src/compiler.rs",
+         old="            And | Or => self.compile_logic_op(op, lhs, rhs, ctx),\n            Pipe => self.compile_piped_call(lhs, rhs, ctx),", new="            And | Or | Pipe => self.compile_logic_op(op, lhs, rhs, ctx),", expect="V-codegen::Compiler::compile_binary_op::only_and_or_get_here"),
     dict(name="bytecursor_next_back_front_byte", kind="break", prop="C13", units=["V-bytecursor"], file="crates/runtime/src/types/iterator.rs",
          old="let result = (self.bytes)[self.end];", new="let result = (self.bytes)[self.index];", expect="V-bytecursor::ByteIterator::next_back::yields_back_position"),
     dict(name="bytecursor_next_reads_after_advance", kind="break", prop="C13", units=["V-bytecursor"], file="crates/runtime/src/types/iterator.rs",
